@@ -80,7 +80,8 @@ Alphabet ==
          \cup {Ins(T, <<<<IntV(k), v>>>>) : k \in {1, 2}, v \in {Null, sa, sT, sE}}
          \cup {Ins(T, <<<<IntV(2), sa>>, <<IntV(1), sa>>>>)}
          \cup {Upd(T, <<<<V, v>>>>, Eq(K, IntV(1))) : v \in {Null, sb}}
-         \cup {Upd(T, <<<<K, IntV(2)>>>>, True), Upd(T, <<<<K, IntV(3)>>>>, Eq(K, IntV(1)))}
+         \cup {Upd(T, <<<<K, IntV(2)>>>>, True), Upd(T, <<<<K, IntV(3)>>>>, Eq(K, IntV(1))),
+               Upd(T, <<<<V, sb>>, <<K, IntV(2)>>>>, True)}
          \cup {Del(T, Eq(K, IntV(1))), Del(T, True)}
     [] Cfg = "persist" ->       \* what the finisher saves of tables and pool; all three closes, reopen, crash point
          {Cre(T, TabT), Drp(T), Ins(T, <<<<IntV(1), sa>>>>), Ins(T, <<<<IntV(2), sa>>>>),
@@ -95,7 +96,8 @@ Alphabet ==
          \cup {E("RemoveStream", [name |-> <<115>>])}
          \cup Closes
     [] Cfg = "reject" ->        \* every kind of invalid call (C04) in every state of a small model
-         {Cre(T, TabT), Drp(T), Ins(T, <<<<IntV(1), sa>>>>), Ins(T, <<<<IntV(7), sa>>>>), Del(T, True),
+         {Cre(T, TabT), Drp(T), Ins(T, <<<<IntV(1), sa>>>>), Ins(T, <<<<IntV(7), sT>>>>), Del(T, True),
+          Upd(T, <<<<V, sb>>, <<K, IntV(5)>>>>, True),     \* refused when it would make two keys equal, after touching strings
           E("Flush", [x |-> 0]), E("IntoInner", [x |-> 0]), E("Reopen", [x |-> 0])}
          \cup Rejects(T, TabT)
     [] Cfg = "keys" ->          \* key shapes: key not first, composite with nullable string part
